@@ -59,7 +59,10 @@ RULE = ('zoo: class x constructor variant x derived operator (self, adjoint, der
         'signature class x return behaviour x raw x functional x x-kind x out-kind; tree: random '
         'expression trees (depth <= 4) x mode. Non-trivial = the call returned a result that is '
         'not identically zero; distinct = distinct (stream, class/variant/derived | dispatch '
-        'tuple | tree shape, mode) signatures among non-trivial cases.')
+        'tuple | tree shape, mode) signatures among non-trivial cases. leaf (round 4): kind x size '
+        'x constant x prefill x mode, fixed enumeration + seeded draws, bitwise; wrap (round 4): '
+        'every bcast / red / diag case of the pso stream a second time through the model\'s own '
+        'block lists and identity wrapping.')
 TRUSTED = ['hand-written model Model/Call.lean (dispatch, bridges, expression classes) and '
            'Model/ProxProg.lean (leaf bodies), tied by running them against the real classes',
            'constructor table of the harness (classes it cannot construct are listed as skipped)']
@@ -75,10 +78,11 @@ ASSUMPTIONS = ['leaf operator classes without an executable model are opaque: th
                'wraps without copying: equivalent as long as no body writes its input, which the '
                'ndarray-input oracle tests; range membership / castability are tags of the model '
                '(XArg, OArg, Leaf.junk), tied to Operator.__call__ by the dispatch stream only',
-               'ReductionOperator / BroadcastOperator are mapped to the block-matrix model directly: '
-               'their wrapping of x / out into a 1-tuple without copying is not modelled; '
-               'ComponentProjection with a list index and ZeroOperator with domain != range have no '
-               'model branch (zoo only)']
+               'ComponentProjection with a list index has no model branch (zoo only); the leaf '
+               'stream reaches only the size < THRESHOLD_SMALL branch of _lincomb_impl '
+               '(lincombSmall); ImagPart / ComplexModulus are modelled on real spaces only; the '
+               'in-place bodies of PowerOperator / MultiplyOperator on a FIELD domain with a '
+               'field range are unreachable through __call__ (TypeError first) and not modelled']
 
 
 def bits(x):
@@ -1305,6 +1309,10 @@ MODELLED = ('OperatorSum', 'OperatorVectorSum', 'OperatorComp', 'OperatorPointwi
             'ComponentProjectionAdjoint', 'ScalingOperator', 'IdentityOperator', 'ConstantOperator',
             'MultiplyOperator', 'PowerOperator', 'ZeroOperator', 'InnerProductOperator')
 
+# round 4 (leaf stream): modelled on every space they accept (ImagPart / ComplexModulus are
+# modelled on real spaces only and stay in the opaque list)
+MODELLED_R4 = ('LinCombOperator', 'NormOperator', 'DistOperator')
+
 
 def all_instances(ctx):
     for name, vname, thunk in zoo_instances(ctx):
@@ -1347,9 +1355,11 @@ def run_zoo(ctx, deep=False):
     ctx.extra['classes_tested'] = sorted(evaluated_cls)   # at least one successful op(x)
     ctx.extra['classes_never_evaluated'] = sorted(never_cls - evaluated_cls)
     ctx.extra['modelled_classes'] = ['Operator.__call__/__new__ dispatch'] + list(MODELLED) + [
-        'ComplexModulusSquared(real)', 'RealPart(real)',
+        'ComplexModulusSquared(real)', 'RealPart(real)'] + list(MODELLED_R4) + [
+        'ImagPart(real)', 'ComplexModulus(real)',
         'all proximal classes of proximal_operators.py (as program leaves)']
-    ctx.extra['opaque_leaf_classes'] = sorted(t for t in evaluated_cls if t not in MODELLED)
+    ctx.extra['opaque_leaf_classes'] = sorted(t for t in evaluated_cls
+                                              if t not in MODELLED and t not in MODELLED_R4)
 
 
 # ---------------------------------------------------------------------------
